@@ -298,19 +298,27 @@ impl Subject {
     }
 
     pub fn build_http(client: Uuid, req: &Req) -> HttpReq {
+        // UUIDs are case-insensitive on input (RFC 4122): about one request in eight spells the path
+        // id in upper case, about one client in five spells its id in upper case
+        let cid = if client.as_u128() % 5 == 0 { client.to_string().to_uppercase() } else { client.to_string() };
+        let sp = |id: &Uuid| -> String {
+            if (id.as_u128() ^ client.as_u128()) % 8 == 0 {
+                id.to_string().to_uppercase()
+            } else {
+                id.to_string()
+            }
+        };
         match req {
-            Req::AddVersion { parent, data } => HttpReq::new("POST", &format!("/v1/client/add-version/{parent}"))
-                .header("X-Client-Id", &client.to_string())
+            Req::AddVersion { parent, data } => HttpReq::new("POST", &format!("/v1/client/add-version/{}", sp(parent)))
+                .header("X-Client-Id", &cid)
                 .header("Content-Type", CT_HISTORY)
                 .body(data.clone()),
-            Req::GetChild { parent } => {
-                HttpReq::new("GET", &format!("/v1/client/get-child-version/{parent}")).header("X-Client-Id", &client.to_string())
-            }
-            Req::AddSnapshot { vid, data } => HttpReq::new("POST", &format!("/v1/client/add-snapshot/{vid}"))
-                .header("X-Client-Id", &client.to_string())
+            Req::GetChild { parent } => HttpReq::new("GET", &format!("/v1/client/get-child-version/{}", sp(parent))).header("X-Client-Id", &cid),
+            Req::AddSnapshot { vid, data } => HttpReq::new("POST", &format!("/v1/client/add-snapshot/{}", sp(vid)))
+                .header("X-Client-Id", &cid)
                 .header("Content-Type", CT_SNAPSHOT)
                 .body(data.clone()),
-            Req::GetSnapshot => HttpReq::new("GET", "/v1/client/snapshot").header("X-Client-Id", &client.to_string()),
+            Req::GetSnapshot => HttpReq::new("GET", "/v1/client/snapshot").header("X-Client-Id", &cid),
         }
     }
 
